@@ -1,6 +1,8 @@
 import SpecKitV.Lemmas.SchedLtf
 import SpecKitV.Lemmas.SchedNewVec
 import SpecKitV.Props.C03
+import SpecKitV.Props.SchedGen
+import SpecKitV.Props.Utils
 
 #print axioms ltfStep_rL
 #print axioms ltfStep_bin
@@ -26,3 +28,8 @@ import SpecKitV.Props.C03
 #print axioms newPlan_grid
 #print axioms vecPlan_grid
 #print axioms vecPlan_increasing
+#print axioms gen_ltf_round_eq
+#print axioms gen_ltf_walk_eq_model
+#print axioms gen_new_walk_eq_model
+#print axioms gen_round_half_up_eq_model
+#print axioms gen_round_half_up_eq_floor
